@@ -39,7 +39,7 @@ Definition batch_only (o:op) : bool :=
   | OpDropCons _ false _ => true
   | OpDropColumn _ _ => true
   | OpAddColumn _ c => negb (c_null c) || c_pk c || match c_default c with Some (DExpr _) => true | _ => false end
-  | OpAddFk _ _ | OpDropFk _ _ => true
+  | OpAddFk _ _ | OpDropFk _ _ _ => true
   | _ => false
   end.
 
@@ -87,7 +87,7 @@ Definition op_eqb (a b:op) : bool :=
       N.eqb t t' && N.eqb c c' && Bool.eqb en en' && ty_eqb et et' && opt_eqb dflt_eqb ed ed'
       && opt_eqb Bool.eqb mn mn' && opt_eqb ty_eqb mt mt' && opt_eqb (opt_eqb dflt_eqb) md md'
   | OpAddFk t f, OpAddFk t' f' => N.eqb t t' && fk_eqb f f'
-  | OpDropFk t n, OpDropFk t' n' => N.eqb t t' && N.eqb n n'
+  | OpDropFk t n nm, OpDropFk t' n' nm' => N.eqb t t' && Bool.eqb nm nm' && (negb nm || N.eqb n n')
   | OpAddCons t k, OpAddCons t' k' => N.eqb t t' && cons_eqb k k'
   | OpDropCons t i n, OpDropCons t' i' n' => N.eqb t t' && Bool.eqb i i' && N.eqb n n'
   | _, _ => false
@@ -127,10 +127,16 @@ Fixpoint sigs_distinct (ks:list cons) : bool :=
    referred table is gone) *)
 Definition no_dangling_fk (A B:schema) : bool :=
   forallb (fun t => negb (memN (t_name t) (keys t_name B)) || forallb (fun f => memN (f_rtable f) (keys t_name B)) (t_fks t)) A.
-(* no two foreign keys of a table with the same (columns, referred table, referred columns) *)
+(* no two foreign keys of a table with the same (columns, referred table, referred columns): reflection on SQLite tells
+   foreign keys apart by exactly this, whatever their options *)
+Definition fk_cols_eqb (a b:fk) : bool :=
+  list_eqb N.eqb (f_cols a) (f_cols b) && N.eqb (f_rtable a) (f_rtable b) && list_eqb N.eqb (f_rcols a) (f_rcols b).
 Fixpoint fk_sigs_distinct (fs:list fk) : bool :=
-  match fs with [] => true | f :: r => negb (existsb (fk_sig_eqb f) r) && fk_sigs_distinct r end.
-Definition inclass_C06 (i:c06_in) : bool :=
+  match fs with [] => true | f :: r => negb (existsb (fk_cols_eqb f) r) && fk_sigs_distinct r end.
+(* "all constraints named" *)
+Definition all_named (S:schema) : bool := forallb (fun t => forallb f_named (t_fks t)) S.
+Definition inclass_C06_core (i:c06_in) : bool :=
   no_dangling_fk (fst i) (snd i) && forallb (fun t => fk_sigs_distinct (t_fks t)) (fst i) && forallb (fun t => fk_sigs_distinct (t_fks t)) (snd i) &&
   wf_schemab (fst i) && wf_schemab (snd i) && defaults_ok (fst i) && defaults_ok (snd i)
   && forallb (fun t => sigs_distinct (t_cons t)) (fst i) && forallb (fun t => sigs_distinct (t_cons t)) (snd i).
+Definition inclass_C06 (i:c06_in) : bool := all_named (fst i) && all_named (snd i) && inclass_C06_core i.
